@@ -23,7 +23,7 @@ PROPERTY = "C13"
 LEVEL = "exploration"
 RULE = ("one evaluation = one seeded history (<= 12 operations, files of 3..40 events, images 8x12): write (gen_model with "
         "complete metadata incl. fluorescence when fl/trace features are present, written by RTDCWriter), export.hdf5 "
-        "(filtered/unfiltered, +-basins/logs/tables), compress, repack(+-strip), condense, split, join of two products; "
+        "(filtered/unfiltered, +-basins/logs/tables, all innate features / without fluorescence features / random subset), compress, repack(+-strip), condense, split, join of two products; "
         "corrupt = copy of a valid product + one or two raw-h5py inconsistencies out of {feature length, contour count, roi size, "
         "unknown feature, missing mandatory key, non-enumerating index, channel count, laser count, samples per event, external "
         "link, non-positive set-up value}. Oracles: closure (no violations for products; same list for a file and its "
@@ -34,7 +34,8 @@ PROBES = ["closure_writer", "closure_export", "closure_compress", "closure_repac
           "closure_join", "copy_same_valid", "corrupt_single", "corrupt_pair", "corrupt_copy_compared",
           "k_feat_len", "k_contour_len", "k_roi", "k_unknown_feat", "k_missing_key", "k_index", "k_channel_count",
           "k_laser_count", "k_samples", "k_extlink", "k_nonpositive", "fluorescence_product", "trace_without_flmax",
-          "stored_index", "fl3_only_product", "index_rewritten_in_replace_mode"]
+          "stored_index", "fl3_only_product", "index_rewritten_in_replace_mode", "export_feature_subset",
+          "basin_export_without_some_features"]
 COMPONENTS = {
     "real": ["dclab.rtdc_dataset.check (IntegrityChecker, check_dataset)", "dclab RTDCWriter, export.hdf5, cli compress/repack/"
              "condense/split/join", "RTDC_HDF5 reader", "h5py/HDF5 + hdf5plugin on tmpfs"],
@@ -118,7 +119,8 @@ class World:
         src = r.randrange(1 << 16)
         if x < 0.22:
             return {"k": "export", "src": src, "filtered": r.random() < 0.6, "mseed": r.randrange(1 << 30),
-                    "basins": r.random() < 0.3, "logs": r.random() < 0.5, "tables": r.random() < 0.5}
+                    "basins": r.random() < 0.3, "logs": r.random() < 0.5, "tables": r.random() < 0.5,
+                    "feats": r.choice(["innate", "innate", "no_fl", "subset"]), "fseed": r.randrange(1 << 20)}
         if x < 0.36:
             tool = r.choice(["compress", "repack", "condense"])
             opts = {}
@@ -193,8 +195,15 @@ class World:
         if viol is None:
             return None
         if viol:
-            ctx.violation("C13.closure", f"{producer} product {name} is reported with violations {viol[:6]}",
-                          sig={"producer": producer, "cue": cue_class(viol[0])}, fatal=False)
+            import h5py
+            with h5py.File(self.dir / name, "r") as h:
+                nfl = sum(f"fl{i}_max" in h.get("events", {}) for i in (1, 2, 3))
+                chc = int(h.attrs.get("fluorescence:channel count", 0))
+            # (some but not all of the fluorescence channels' features were left out by a feature-subset export)
+            partial = bool(producer == "export" and 0 < nfl < chc)
+            ctx.violation("C13.closure", f"{producer} product {name} is reported with violations {viol[:6]}"
+                          + (f" ({nfl} of {chc} fl?_max features exported)" if partial else ""),
+                          sig={"producer": producer, "cue": cue_class(viol[0]), "partial_fl_export": partial, "n_viol": len(viol)}, fatal=False)
         ctx.probe("closure_" + producer)
         ctx.log("o", f"closure {producer} {name}", len(viol))
         return viol
@@ -259,6 +268,7 @@ class World:
             return
         name = self.newname("e")
         rs = seeds.np_rng(op["mseed"], "mask")
+        feats_partial_fl = False
         try:
             with quiet(), dclab.new_dataset(self.dir / src["name"]) as ds:
                 n = len(ds)
@@ -267,14 +277,33 @@ class World:
                     mask[int(rs.integers(0, n))] = True
                 ds.filter.manual[:] = mask
                 ds.apply_filter()
-                ds.export.hdf5(self.dir / name, features=ds.features_innate, filtered=op["filtered"], basins=op["basins"],
+                feats = list(ds.features_innate)
+                how = op.get("feats", "innate")
+                if how == "no_fl":
+                    # a (basin-based) export that leaves the fluorescence features to the original file
+                    feats = [f for f in feats if not (f.startswith("fl") or f == "trace")] or feats
+                elif how == "subset":
+                    pr = seeds.rng(op.get("fseed", 0), "feats")
+                    feats = [f for f in feats if pr.random() < 0.5] or feats[:1]
+                nfl_src = sum(f"fl{i}_max" in ds.features_innate for i in (1, 2, 3))
+                nfl_out = sum(f"fl{i}_max" in feats for i in (1, 2, 3))
+                feats_partial_fl = 0 < nfl_out < nfl_src
+                if feats != list(ds.features_innate):
+                    ctx.probe("export_feature_subset")
+                    if op["basins"]:
+                        ctx.probe("basin_export_without_some_features")
+                ds.export.hdf5(self.dir / name, features=feats, filtered=op["filtered"], basins=op["basins"],
                                logs=op["logs"], tables=op["tables"])
         except Exception as e:
             return self.skipped("export", e)
         ctx.state_ops += 1
         ctx.state("export", src["producer"], op["filtered"], op["basins"])
         ctx.log("p", f"export {src['name']} -> {name} filtered={op['filtered']} basins={op['basins']}", seeds.short_hash(mask))
-        self.closure(name, "export")
+        viol = self.closure(name, "export")
+        if viol and feats_partial_fl:
+            # reported above; a file whose channel metadata contradict its features is no "dataset with complete metadata"
+            # for the producers that follow
+            return
         self.add(name, "export")
 
     def do_tool(self, op):
